@@ -58,11 +58,14 @@ static uint32_t golden_backend_version(int be)
 static int is_isa(int be) { return be == EC_BACKEND_ISA_L_RS_VAND || be == EC_BACKEND_ISA_L_RS_CAUCHY; }
 static int is_xor(int be) { return be == EC_BACKEND_FLAT_XOR_HD; }
 
+static int shapes_with_m0;     /* set by the plans that also take the m = 0 shapes */
 /* all (k,m), k,m>=1, k+m<=nmax, simplest first (by n then k) */
 static int shapes_km(struct shape *out, int be, int nmax)
 {
     int c = 0;
     for (int n = 2; n <= nmax; n++) for (int k = 1; k < n; k++) { out[c].be = be; out[c].k = k; out[c].m = n - k; out[c].hd = n - k; out[c].wv = 0; c++; }
+    /* m = 0 is accepted by create as well (no parity, nothing tolerated): k = 1..nmax */
+    if (shapes_with_m0) for (int k = 1; k <= nmax; k++) { out[c].be = be; out[c].k = k; out[c].m = 0; out[c].hd = 0; out[c].wv = 0; c++; }
     return c;
 }
 static int shapes_xor(struct shape *out)
